@@ -166,6 +166,21 @@ def ob_table():
                           "all 32 x 255 entries (finite, exhaustive): entry (i,j) = [(j+1)*256^i]G in Montgomery form", body)
 
 
+def mont_form_jobs():
+    """conversions into / out of Montgomery form and the composite mod-n helpers: the value AND the power of R they carry"""
+    R = 1 << 256
+    cn = {pow(R, 2, N2): 2, R % N2: 1, 1: 0}
+    cp = {pow(R, 2, P2): 2, R % P2: 1, 1: 0}
+    mm_n = {"fn64::mont_mul": "montmul"}
+    mm_p = {"fp64::mont_mul": "montmul"}
+    return [lambda: ob_monomial(CRATE, "fn_to_mont", "fn_to_mont", [("a", 0)], mm_n, cn, ({"a": 1}, 1)),
+            lambda: ob_monomial(CRATE, "fn_from_mont", "fn_from_mont", [("a", 1)], mm_n, cn, ({"a": 1}, 0)),
+            lambda: ob_monomial(CRATE, "fn_mul", "fn_mul", [("a", 0), ("b", 0)], mm_n, cn, ({"a": 1, "b": 1}, 0)),
+            lambda: ob_monomial(CRATE, "fn_pow_n_minus_2", "fn_pow", [("a", 0)], mm_n, cn, ({"a": N2 - 2}, 0), const_args=("SM2_N_MINUS_TWO",)),
+            lambda: ob_monomial(CRATE, "fp_to_mont", "fp_to_mont", [("a", 0)], mm_p, cp, ({"a": 1}, 1)),
+            lambda: ob_monomial(CRATE, "fp_from_mont", "fp_from_mont", [("a", 1)], mm_p, cp, ({"a": 1}, 0))]
+
+
 def jobs_for(tier):
     j = [ob_constants, ob_table]
     j += [lambda: ob_addsub(CRATE, "u256_add", 4, False), lambda: ob_addsub(CRATE, "u256_sub", 4, True), lambda: ob_addsub(CRATE, "u512_add", 8, False),
@@ -181,6 +196,7 @@ def jobs_for(tier):
           lambda: l3_point("Point::is_valid", 1, chk_valid, "is_valid"), lambda: l3_point("Point::is_valid_affine_point", 1, chk_valid_affine, "is_valid_affine_point")]
     j += [lambda: ob_pow("fp_pow", "SM2_P_MINUS_TWO", P2 - 2, "(p-2)"), lambda: ob_pow("fp_pow", "SM2_SQRT_EXP", (P2 + 1) // 4, "((p+1)/4)"),
           lambda: ob_pow("fn_pow", "SM2_N_MINUS_TWO", N2 - 2, "(n-2)")]
+    j += mont_form_jobs()
     import c11_l4
     j += c11_l4.jobs(tier)
     return j
